@@ -454,6 +454,9 @@ def fresh_exception(eng, st, cls):
     return VObj(e, "Exception")
 
 
+objid_f = z3.Function("objid", ObjS, IntS)
+
+
 def box(eng, st, v):
     """Obj term standing for a value stored into an opaque slot (exception stored in a future, callback in a set)."""
     if isinstance(v, VObj):
@@ -462,11 +465,19 @@ def box(eng, st, v):
         o = st.heap[v.oid]
         key = "__box__"
         if key not in o.f:
-            e = z3.Const(fresh_name(f"box{v.oid}"), ObjS)
+            # one term per heap object, the same in every clone of the state (clauses are evaluated on scratch clones:
+            # a term invented there would make the same object look like two)
+            e = z3.Const(f"box!{v.oid}", ObjS)
             o.f[key] = e
             if isinstance(o.cls, type):
-                st.assume(typeof_f(e) == cls_code(o.cls))
-            st.assume(z3.Not(is_old_f(e)))
+                st.fact(typeof_f(e) == cls_code(o.cls))
+            entry = st.labels.get("__entry__") if hasattr(st, "labels") else None
+            was_there = entry is not None and v.oid in entry.heap
+            st.fact(is_old_f(e) if was_there else z3.Not(is_old_f(e)))
+            st.fact(z3.And(objid_f(e) == 1000000 + v.oid, e != z3.Const("none-obj", ObjS)))
+            hk = eng.hooks.get("box_facts")
+            if hk is not None:
+                hk(eng, st, v, e)          # what the opaque view of this object exposes (e.g. an exception's attributes)
         return o.f[key]
     if isinstance(v, VClass):
         return z3.Const(f"class:{getattr(v.py, '__name__', v.py)}", ObjS)
